@@ -14,7 +14,8 @@ def run(mid, checks):
     m = muts[mid]
     base = Path(tempfile.mkdtemp(prefix="vfmut_"))
     try:
-        shutil.copytree("/repo/src", base / "src", ignore=shutil.ignore_patterns("__pycache__"))
+        # the committed tree of /repo (not the working tree: a seeded patch may be applied there at this moment)
+        subprocess.run("git -C /repo archive HEAD src | tar -x -C " + str(base), shell=True, check=True)
         f = base / "src" / "safeds_stubgen" / m["file"]
         s = f.read_text()
         if s.count(m["old"]) < 1:
